@@ -444,6 +444,19 @@ func (e *Engine) collectIDs(v Value, ids map[int]bool) {
 
 func (e *Engine) deepAPI(name string, args []Value) (Value, bool) {
 	switch name {
+	case "vSnapshot":
+		return PtrV{cell: e.newCell(OpaqueV{kind: "snapshot"}, "snapshot")}, true
+	case "vChanged":
+		ids := map[int]bool{}
+		e.collectIDs(args[0], ids)
+		for _, id := range e.preWriteIDs {
+			if ids[id] {
+				return e.tt.Bool(true), true
+			}
+		}
+		return e.tt.Bool(false), true
+	case "vGlobalWrites":
+		return e.c64(uint64(e.globalWrites)), true
 	case "vWritesInto":
 		ids := map[int]bool{}
 		e.collectIDs(args[0], ids)
